@@ -160,6 +160,18 @@ structure CacheEff (k v : Nat) (cs : List Nat) (a a' : ASt) : Prop where
   st1 : (∃ c ∈ cs, findB a.blocks c = none) → a'.stbl = cacheS k v a.stbl
   st0 : (¬ ∃ c ∈ cs, findB a.blocks c = none) → a'.stbl = a.stbl
   hc : ∀ x, hasChild a'.blocks x = hasChild a.blocks x
+  lbl : a'.blocks.map (·.label) = a.blocks.map (·.label)
+
+theorem updB_labels (bs : List ABlk) (l : Nat) (f : ABlk → ABlk) (hf : ∀ b, (f b).label = b.label) :
+    (updB bs l f).map (·.label) = bs.map (·.label) := by
+  unfold updB
+  rw [List.map_map]
+  apply List.map_congr_left
+  intro b _
+  simp only [Function.comp]
+  split
+  · exact hf b
+  · rfl
 
 theorem CacheEff.nil (k v : Nat) (a : ASt) : CacheEff k v [] a a where
   sl := rfl
@@ -169,6 +181,7 @@ theorem CacheEff.nil (k v : Nat) (a : ASt) : CacheEff k v [] a a where
   st1 := fun ⟨c, hc, _⟩ => by cases hc
   st0 := fun _ => rfl
   hc := fun _ => rfl
+  lbl := rfl
 
 theorem aCache_eff {a : ASt} {k v : Nat} (hd : a.disk k = some v) (c : Nat) : CacheEff k v [c] a (aCache a k c) := by
   unfold aCache
@@ -177,7 +190,7 @@ theorem aCache_eff {a : ASt} {k v : Nat} (hd : a.disk k = some v) (c : Nat) : Ca
   cases hf : findB a.blocks c with
   | some bc =>
     simp only
-    refine ⟨rfl, rfl, rfl, ?_, ?_, fun _ => rfl, ?_⟩
+    refine ⟨rfl, rfl, rfl, ?_, ?_, fun _ => rfl, ?_, updB_labels a.blocks c (cacheF k v) (cacheF_label k v)⟩
     · intro x
       show findB (updB a.blocks c (cacheF k v)) x = _
       rw [findB_updB _ _ _ (cacheF_label k v)]
@@ -206,7 +219,7 @@ theorem aCache_eff {a : ASt} {k v : Nat} (hd : a.disk k = some v) (c : Nat) : Ca
     cases hs : a.stbl k with
     | none =>
       simp only
-      refine ⟨rfl, rfl, rfl, hblk, ?_, ?_, fun _ => rfl⟩
+      refine ⟨rfl, rfl, rfl, hblk, ?_, ?_, fun _ => rfl, rfl⟩
       · intro _
         show setT a.stbl k ⟨v, 0⟩ = _
         funext k'
@@ -214,7 +227,7 @@ theorem aCache_eff {a : ASt} {k v : Nat} (hd : a.disk k = some v) (c : Nat) : Ca
       · intro h; exact absurd ⟨c, List.mem_singleton.mpr rfl, hf⟩ h
     | some e =>
       simp only
-      refine ⟨rfl, rfl, rfl, hblk, ?_, fun _ => rfl, fun _ => rfl⟩
+      refine ⟨rfl, rfl, rfl, hblk, ?_, fun _ => rfl, fun _ => rfl, rfl⟩
       intro _
       funext k'
       simp [cacheS, hs]
@@ -223,7 +236,8 @@ theorem CacheEff.trans {k v : Nat} {cs1 cs2 : List Nat} {a a1 a2 : ASt} (h1 : Ca
     (h2 : CacheEff k v cs2 a1 a2) : CacheEff k v (cs1 ++ cs2) a a2 := by
   have hlive : ∀ x, findB a1.blocks x = none ↔ findB a.blocks x = none := by
     intro x; rw [h1.blk x]; cases findB a.blocks x <;> simp
-  refine ⟨h2.sl.trans h1.sl, h2.sh.trans h1.sh, h2.disk.trans h1.disk, ?_, ?_, ?_, fun x => (h2.hc x).trans (h1.hc x)⟩
+  refine ⟨h2.sl.trans h1.sl, h2.sh.trans h1.sh, h2.disk.trans h1.disk, ?_, ?_, ?_, fun x => (h2.hc x).trans (h1.hc x),
+    h2.lbl.trans h1.lbl⟩
   · intro x
     rw [h2.blk x, h1.blk x]
     cases findB a.blocks x with
@@ -264,5 +278,182 @@ theorem cache_fold_none {k : Nat} : ∀ (cs : List Nat) (a : ASt), a.disk k = no
     have : aCache a k c = a := by unfold aCache; rw [hd]
     simp only [List.foldl_cons, this]
     exact cache_fold_none cs a hd
+
+
+/-! ### ancestors, chains, pruning as a filter (for the walk-based pruning of the driver's model) -/
+
+theorem desc_cons_older {sl sh : Nat} {y : ABlk} {older : List ABlk} (hwf : WF sl sh (y :: older)) {e : Nat} {z : ABlk}
+    (hz : z ∈ older) : desc (y :: older) e z.label = desc older e z.label := by
+  obtain ⟨_, _, h3, _⟩ := hwf
+  have : y.label ≠ z.label := fun e' => h3 z hz e'.symm
+  rw [desc]; simp only [this, if_false]
+
+theorem desc_cons_of_older {sl sh : Nat} {y : ABlk} {older : List ABlk} (hwf : WF sl sh (y :: older)) {e p : Nat}
+    (h : desc older e p = true) : desc (y :: older) e p = true := by
+  obtain ⟨z, hz, hzl⟩ := desc_label h
+  rw [← hzl, desc_cons_older hwf hz, hzl]; exact h
+
+theorem desc_unfold {sl sh e : Nat} : ∀ {bs : List ABlk}, WF sl sh bs → ∀ {x : Nat}, desc bs e x = true →
+    ∃ z ∈ bs, z.label = x ∧ (z.parent = e ∨ desc bs e z.parent = true)
+  | [], _, _, h => by cases h
+  | y :: older, hwf, x, h => by
+    have hwf0 := hwf
+    obtain ⟨h1, _, _, _⟩ := hwf
+    rw [desc] at h
+    by_cases hy : y.label = x
+    · simp only [hy, if_true] at h
+      refine ⟨y, List.mem_cons_self, hy, ?_⟩
+      rcases Bool.or_eq_true _ _ |>.mp h with q | q
+      · exact Or.inl (by simpa using q)
+      · exact Or.inr (desc_cons_of_older hwf0 q)
+    · simp only [hy, if_false] at h
+      obtain ⟨z, hz, hzl, hzp⟩ := desc_unfold h1 h
+      refine ⟨z, List.mem_cons_of_mem _ hz, hzl, ?_⟩
+      rcases hzp with q | q
+      · exact Or.inl q
+      · exact Or.inr (desc_cons_of_older hwf0 q)
+
+theorem desc_sl_false {sl sh e : Nat} {bs : List ABlk} (hwf : WF sl sh bs) : desc bs e sl = false := by
+  cases h : desc bs e sl with
+  | false => rfl
+  | true =>
+    obtain ⟨z, hz, hzl⟩ := desc_label h
+    exact absurd hzl (wf_label_ne hwf z hz)
+
+theorem wf_parent_height {sl sh : Nat} : ∀ {bs : List ABlk}, WF sl sh bs → ∀ z ∈ bs,
+    (z.parent = sl ∧ z.height = sh + 1) ∨ ∃ p ∈ bs, p.label = z.parent ∧ z.height = p.height + 1
+  | [], _, _, hz => by cases hz
+  | y :: older, h, z, hz => by
+    obtain ⟨h1, _, _, h4⟩ := h
+    rcases List.mem_cons.mp hz with rfl | hz
+    · rcases h4 with ⟨a, b⟩ | ⟨p, hp, hpl, hh⟩
+      · left; exact ⟨a, b⟩
+      · right; exact ⟨p, List.mem_cons_of_mem _ hp, hpl, hh⟩
+    · rcases wf_parent_height h1 z hz with a | ⟨p, hp, hpl, hh⟩
+      · left; exact a
+      · right; exact ⟨p, List.mem_cons_of_mem _ hp, hpl, hh⟩
+
+theorem height_bound {sl sh : Nat} : ∀ {bs : List ABlk}, WF sl sh bs → ∀ z ∈ bs, z.height ≤ sh + bs.length
+  | [], _, _, hz => by cases hz
+  | y :: older, h, z, hz => by
+    obtain ⟨h1, _, _, h4⟩ := h
+    simp only [List.length_cons]
+    rcases List.mem_cons.mp hz with rfl | hz
+    · rcases h4 with ⟨_, b⟩ | ⟨p, hp, _, hh⟩
+      · omega
+      · have := height_bound h1 p hp; omega
+    · have := height_bound h1 z hz; omega
+
+/-- `x` lies below `top` through a chain of at most `n` blocks none of which is `ex` (the shape of `Walk`) -/
+inductive AB (bs : List ABlk) (ex : Nat) : Nat → Nat → Nat → Prop where
+  | here {top n : Nat} (z : ABlk) : z ∈ bs → z.parent = top → z.label ≠ ex → AB bs ex top (n + 1) z.label
+  | there {top n x : Nat} (b0 : ABlk) : b0 ∈ bs → b0.parent = top → b0.label ≠ ex → AB bs ex b0.label n x →
+      AB bs ex top (n + 1) x
+
+theorem AB.ext {bs : List ABlk} {ex top n y : Nat} (h : AB bs ex top n y) (z : ABlk) (hz : z ∈ bs) (hp : z.parent = y)
+    (hne : z.label ≠ ex) : AB bs ex top (n + 1) z.label := by
+  induction h with
+  | here z0 h1 h2 h3 => exact AB.there z0 h1 h2 h3 (AB.here z hz hp hne)
+  | there b0 h1 h2 h3 _ ih => exact AB.there b0 h1 h2 h3 (ih hp)
+
+theorem AB.avoids {sl sh : Nat} {bs : List ABlk} (hwf : WF sl sh bs) {ex top n x : Nat} (h : AB bs ex top n x)
+    (hex : ex ≠ sl) : (top = sl ∨ (top ≠ ex ∧ desc bs ex top = false)) → x ≠ ex ∧ desc bs ex x = false := by
+  have key : ∀ (t : Nat) (z : ABlk), z ∈ bs → z.parent = t → z.label ≠ ex →
+      (t = sl ∨ (t ≠ ex ∧ desc bs ex t = false)) → desc bs ex z.label = false := by
+    intro t z hz hp hne ht
+    cases hd : desc bs ex z.label with
+    | false => rfl
+    | true =>
+      exfalso
+      obtain ⟨z', hz', hzl, hzp⟩ := desc_unfold hwf hd
+      have : z' = z := by
+        have a := findB_of_mem hwf z' hz'
+        have b := findB_of_mem hwf z hz
+        rw [hzl, b] at a; cases a; rfl
+      subst this
+      rw [hp] at hzp
+      rcases ht with rfl | ⟨t1, t2⟩
+      · rcases hzp with q | q
+        · exact hex q.symm
+        · rw [desc_sl_false hwf] at q; cases q
+      · rcases hzp with q | q
+        · exact t1 q
+        · rw [t2] at q; cases q
+  induction h with
+  | here z h1 h2 h3 => intro ht; exact ⟨h3, key _ z h1 h2 h3 ht⟩
+  | there b0 h1 h2 h3 _ ih => intro ht; exact ih (Or.inr ⟨h3, key _ b0 h1 h2 h3 ht⟩)
+
+theorem AB.of_not_desc {sl sh : Nat} {bs : List ABlk} (hwf : WF sl sh bs) {ex : Nat} : ∀ (d : Nat) (z : ABlk), z ∈ bs →
+    z.height = sh + d → z.label ≠ ex → desc bs ex z.label = false → AB bs ex sl d z.label
+  | 0, z, hz, hh, _, _ => by have := wf_height hwf z hz; omega
+  | d + 1, z, hz, hh, hne, hnd => by
+    rcases wf_parent_height hwf z hz with ⟨hp, _⟩ | ⟨p, hp, hpl, hph⟩
+    · exact AB.here z hz hp hne
+    · have hpne : p.label ≠ ex := by
+        intro e
+        have := desc_child hwf z hz hpl.symm (Or.inl e)
+        rw [hnd] at this; cases this
+      have hpnd : desc bs ex p.label = false := by
+        cases hd : desc bs ex p.label with
+        | false => rfl
+        | true =>
+          have := desc_child hwf z hz hpl.symm (Or.inr hd)
+          rw [hnd] at this; cases this
+      have := AB.of_not_desc hwf d p hp (by omega) hpne hpnd
+      exact this.ext z hz hpl.symm hne
+
+theorem prune_eq_filter {sl sh l : Nat} : ∀ {bs : List ABlk}, WF sl sh bs →
+    prune l bs = bs.filter (fun y => decide (y.label ≠ l) && desc bs l y.label)
+  | [], _ => rfl
+  | y :: older, hwf => by
+    have hwf0 := hwf
+    obtain ⟨h1, _, _, _⟩ := hwf
+    have ih := prune_eq_filter (l := l) h1
+    have hold : older.filter (fun z => decide (z.label ≠ l) && desc (y :: older) l z.label) =
+        older.filter (fun z => decide (z.label ≠ l) && desc older l z.label) := by
+      apply List.filter_congr
+      intro z hz
+      rw [desc_cons_older hwf0 hz]
+    have hy : desc (y :: older) l y.label = ((y.parent == l) || desc older l y.parent) := by
+      rw [desc]; simp
+    rw [prune, List.filter_cons, hy, hold, ← ih]
+    by_cases hc : y.label ≠ l ∧ ((y.parent == l) || desc older l y.parent) = true
+    · rw [if_pos hc]
+      simp only [hc.1, hc.2, ne_eq, not_false_eq_true, decide_true, Bool.and_self, if_true]
+    · rw [if_neg hc]
+      have : (decide (y.label ≠ l) && ((y.parent == l) || desc older l y.parent)) = false := by
+        cases h1 : decide (y.label ≠ l) <;> cases h2 : ((y.parent == l) || desc older l y.parent) <;> simp_all
+      rw [this]; simp
+
+
+theorem desc_ne {sl sh l : Nat} : ∀ {bs : List ABlk}, WF sl sh bs → ∀ {x : Nat}, desc bs l x = true → x ≠ l
+  | [], _, _, h => by cases h
+  | y :: older, hwf, x, h => by
+    intro e
+    subst e
+    have hwf0 := hwf
+    obtain ⟨h1, h2, h3, h4⟩ := hwf
+    unfold desc at h
+    by_cases e : y.label = x
+    · simp only [e, if_true] at h
+      rcases Bool.or_eq_true _ _ |>.mp h with q | q
+      · have : y.parent = x := by simpa using q
+        rcases h4 with ⟨a, _⟩ | ⟨p, hp, hpl, _⟩
+        · rw [this] at a; rw [← e] at a; exact h2 a
+        · rw [this, ← e] at hpl; exact h3 p hp hpl
+      · exact desc_label_ne hwf0 q e
+    · simp only [e, if_false] at h; exact desc_ne h1 h rfl
+
+/-- a sequence of stabilisation steps each of which the abstract machine accepts (the committed path) -/
+def StableChain : ASt → List Nat → Prop
+  | _, [] => True
+  | a, c :: cs => ∃ a1, aStable a c = some a1 ∧ StableChain a1 cs
+
+theorem run_stable_cons (a : ASt) (c : Nat) (cs : List Nat) {a1 : ASt} (h : aStable a c = some a1) :
+    run a ((c :: cs).map Op.stable) = run a1 (cs.map Op.stable) := by
+  unfold run
+  simp only [List.map_cons, List.foldl_cons]
+  show List.foldl stepOp ((aStable a c).getD a) _ = _
+  rw [h]; rfl
 
 end LemoProofs.CowSpecL
